@@ -36,6 +36,19 @@ def world(h, names, vcls="Vertex"):
     return V, P, W
 
 
+def set_caching(h, V, on):
+    """Vertex.NEIGHBOR_CACHING := on; when on, every vertex is asked for its neighbours (the settings the read-back uses, and ANY) so that
+    the build meets a warm memo on every vertex it touches."""
+    h.fn("edgegraph.structure.vertex.Vertex").dict["NEIGHBOR_CACHING"] = bool(on)
+    if on:
+        from rules import c04
+        nb, C = h.fn(c04.FN), c04.consts(h)
+        for v in V.values():
+            for d in ("FORWARD", "ANY", "BACKWARD"):
+                h.w.steps = 0
+                h.call(nb, v, C[d], C["NEIGHBOR"])
+
+
 def snapshot(V, extra_links=()):
     st = {}
     for n, v in V.items():
@@ -114,11 +127,14 @@ def run(ctx):
                 combos.append((LINKTYPES[nrow % 3], "EqVert"))      # the key and the extra vertex are distinct objects that compare equal
             if len(keys) < 3 and nrow % 4 == 1:
                 combos.append((("RoadLink", "FixedEndsEdge")[nrow % 8 == 1], "Vertex"))     # user edge classes: other constructor parameter names / ends fixed at construction
-            for lt, vcls in combos:
-                if len(keys) == 2 and lt != "DirectedEdge" and (len(rows[0]) + len(rows[1])) > 3 and vcls == "Vertex":
+            if len(keys) < 3:
+                combos.append((LINKTYPES[(nrow + 1) % 3], "Vertex", True))     # caching on, every vertex asked for its neighbours before the build
+            for lt, vcls, *warm in combos:
+                if len(keys) == 2 and lt != "DirectedEdge" and (len(rows[0]) + len(rows[1])) > 3 and vcls == "Vertex" and not warm:
                     continue
                 try:
                     V, P, W = world(h, verts, vcls)
+                    set_caching(h, V, bool(warm))
                     one_shot = lt == "DirectedEdge" and (len(rows[0]) + len(keys)) % 2 == 0     # rows given as one-shot iterators (the docstring allows any iterable)
                     adj = DictV([[V[k], (IterV([V[x] for x in row]) if one_shot else Seq([V[x] for x in row], "list"))] for k, row in zip(keys, rows)])
                     pre = snapshot(V)
@@ -139,10 +155,71 @@ def run(ctx):
                         if x not in want_members:
                             want_members.append(x)
                 why = compare(out, V, want, want_members, h, links_only=(vcls == "EqVert")) or readback(h, V, want, lt) or (prior_universe(W, verts) if vcls != "EqVert" else None)
-                res.ob(why is None, sig=("dict", keys, rows, lt, vcls), sample={"builder": "load_adj_dict", "adjacency": {k: list(r) for k, r in zip(keys, rows)}, "linktype": lt})
+                res.ob(why is None, sig=("dict", keys, rows, lt, vcls, bool(warm)), sample={"builder": "load_adj_dict", "adjacency": {k: list(r) for k, r in zip(keys, rows)}, "linktype": lt})
                 if why:
-                    feats = ("rows-are-iterators," if one_shot else "") + (f"vertex-class={vcls}," if vcls != "Vertex" else "") + f"empty-row={any(len(r) == 0 for r in rows)},self-entry={any(k in r for k, r in zip(keys, rows))},repeated-entry={any(len(set(r)) < len(r) for r in rows)},value-not-a-key={any('e' in r for r in rows)}"
-                    res.violation("BUILD-DICT", DICT_FN, feats, f"load_adj_dict({{{', '.join(k + ': ' + str(list(r)) for k, r in zip(keys, rows))}}}, {lt}) on {vcls} objects: {why}", replay=replay_dict(keys, rows, lt))
+                    feats = ("caching-on-warm," if warm else "") + ("rows-are-iterators," if one_shot else "") + (f"vertex-class={vcls}," if vcls != "Vertex" else "") + f"empty-row={any(len(r) == 0 for r in rows)},self-entry={any(k in r for k, r in zip(keys, rows))},repeated-entry={any(len(set(r)) < len(r) for r in rows)},value-not-a-key={any('e' in r for r in rows)}"
+                    res.violation("BUILD-DICT", DICT_FN, feats, f"load_adj_dict({{{', '.join(k + ': ' + str(list(r)) for k, r in zip(keys, rows))}}}, {lt}) on {vcls} objects" + (" with Vertex.NEIGHBOR_CACHING on and neighbors() of every vertex asked before the build" if warm else "") + f": {why}", replay=replay_dict(keys, rows, lt, bool(warm)))
+    # ---------------- a row names something that is not a vertex: however the call ends, no link exists that is not a complete link of a
+    # listed pair ("exactly one new link ... per listed pair"), and a later build on the same vertices reads back normally
+    nj = 0
+    JUNK = "not-a-vertex"
+    for lt in LINKTYPES:
+        for adjn in ([("a", ["b", JUNK])], [("a", [JUNK])], [("a", [JUNK, "b"])], [("a", ["b"]), ("b", ["a", JUNK, "e"])], [("a", ["a", JUNK])]):
+            try:
+                V, P, W = world(h, ["a", "b", "e"])
+                set_caching(h, V, False)
+                pre = snapshot(V)
+                out = h.call(fdict, DictV([[V[k], Seq([V.get(x, x) for x in row], "list")] for k, row in adjn]), h.cls(lt))
+                post = snapshot(V)
+            except Unknown as u:
+                res.ob(False)
+                res.undecide(f"{DICT_FN} with a non-vertex entry {adjn} {lt}: {u}")
+                continue
+            nj += 1
+            why = None
+            if out.kind == "raise":
+                pairs = []
+                for k, row in adjn:
+                    stop = False
+                    for x in row:
+                        if x == JUNK:
+                            stop = True
+                            break
+                        pairs.append((k, x))
+                    if stop:
+                        break
+                states = []
+                for cut in range(len(pairs) + 1):
+                    w_ = {k: {"links": list(v["links"]), "universes": list(v["universes"])} for k, v in pre.items()}
+                    for p_, q_ in pairs[:cut]:
+                        w_[p_]["links"].append((lt, (p_, q_)))
+                        if q_ != p_:
+                            w_[q_]["links"].append((lt, (p_, q_)))
+                    states.append({k: v["links"] for k, v in w_.items()})
+                got = {k: v["links"] for k, v in post.items()}
+                if got not in states:
+                    why = (f"the call raises {out.excname} and leaves " + "; ".join(f"{k}.links = {got[k]}" for k in got if got[k] != states[-1][k] or got[k] != states[0][k])[:300]
+                           + " - not the links of the pairs listed before the offending entry (nor of a prefix of them)")
+                else:
+                    # the caller catches the exception and builds again on the same vertices
+                    want = {k: {"links": list(v["links"]), "universes": list(v["universes"])} for k, v in post.items()}
+                    want["a"]["links"].append((lt, ("a", "e")))
+                    want["e"]["links"].append((lt, ("a", "e")))
+                    try:
+                        out2 = h.call(fdict, DictV([[V["a"], Seq([V["e"]], "list")]]), h.cls(lt))
+                        why = compare(out2, V, want, ["a", "e"], h, links_only=True) or readback(h, V, want, lt)
+                    except Unknown as u:
+                        res.ob(False)
+                        res.undecide(f"{DICT_FN} after a rejected non-vertex entry {adjn} {lt}: {u}")
+                        continue
+                    if why:
+                        why = f"the call raises {out.excname}; a later load_adj_dict({{a: [e]}}, {lt}) on the same vertices: {why}"
+            res.ob(why is None, sig=("non-vertex-entry", tuple((k, tuple(r)) for k, r in adjn), lt))
+            if why:
+                res.violation("BUILD-DICT", DICT_FN, f"non-vertex-entry,position={[r.index(JUNK) for k, r in adjn if JUNK in r][0]},rows={len(adjn)}",
+                              f"load_adj_dict({{{', '.join(k + ': ' + str(r) for k, r in adjn)}}}, {lt}): {why}",
+                              replay="from edgegraph.structure import *\nfrom edgegraph.builder.adjlist import load_adj_dict\na, b, e = Vertex(), Vertex(), Vertex()\ntry:\n    load_adj_dict({a: [b, 'not-a-vertex']}, " + (lt if lt != "SymTwo" else "DirectedEdge") + ")\nexcept Exception as x: print(type(x))\nprint([(type(l).__name__, l.vertices) for l in a.links])")
+    n += nj
     res.rule("BUILD-DICT", n)
     # ---------------- load_adj_matrix
     m = 0
@@ -161,9 +238,12 @@ def run(ctx):
                 combos.append((LINKTYPES[(ci + 1) % 3], "EqVert"))
             if size == 2 and ci % 3 == 1:
                 combos.append((("RoadLink", "FixedEndsEdge")[ci % 2], "Vertex"))
-            for lt, vcls in combos:
+            if size in (1, 2):
+                combos.append((LINKTYPES[(ci + 2) % 3], "Vertex", True))
+            for lt, vcls, *warm in combos:
                 try:
                     V, P, W = world(h, names + ["e"], vcls)
+                    set_caching(h, V, bool(warm))
                     rows = [[(truthy[(ci + i + j) % len(truthy)] if cell[i * size + j] else (0 if (i + j) % 2 else None)) for j in range(size)] for i in range(size)]
                     kind = "tuple" if ci % 2 else "list"     # rows / side array given as tuples are as good as lists
                     mat = Seq([Seq(r, kind) for r in rows], kind)
@@ -185,9 +265,9 @@ def run(ctx):
                                 want[b]["links"].append((lt, (a, b)))
                 why = compare(out, V, want, list(names), h, links_only=(vcls == "EqVert")) or readback(h, V, want, lt)
                 why = why or (prior_universe(W, names + ["e"]) if vcls != "EqVert" else None)
-                res.ob(why is None, sig=("matrix", size, cell, lt, vcls), sample={"builder": "load_adj_matrix", "cells": [list(cell[i * size:(i + 1) * size]) for i in range(size)], "linktype": lt})
+                res.ob(why is None, sig=("matrix", size, cell, lt, vcls, bool(warm)), sample={"builder": "load_adj_matrix", "cells": [list(cell[i * size:(i + 1) * size]) for i in range(size)], "linktype": lt})
                 if why:
-                    res.violation("BUILD-MATRIX", MAT_FN, f"size={size},diagonal={any(cell[i * size + i] for i in range(size))}" + (f",vertex-class={vcls}" if vcls != "Vertex" else ""), f"load_adj_matrix(size {size}, truthy cells {cell}, {lt}) on {vcls} objects: {why}", replay=replay_mat(size, cell, lt))
+                    res.violation("BUILD-MATRIX", MAT_FN, f"size={size},diagonal={any(cell[i * size + i] for i in range(size))}" + (f",vertex-class={vcls}" if vcls != "Vertex" else "") + (",caching-on-warm" if warm else ""), f"load_adj_matrix(size {size}, truthy cells {cell}, {lt}) on {vcls} objects" + (" with Vertex.NEIGHBOR_CACHING on and neighbors() of every vertex asked before the build" if warm else "") + f": {why}", replay=replay_mat(size, cell, lt))
     # malformed shapes
     for size in (1, 2, 3):
         names = ["a", "b", "c"][:size]
@@ -203,6 +283,7 @@ def run(ctx):
         for kind, bad_row, delta, rowform in shapes:
             try:
                 V, P, W = world(h, names + ["e"])
+                set_caching(h, V, False)
                 rows = [[1] * size for _ in range(size)]
                 vnames = list(names)
                 if kind == "rows-cancel":
@@ -246,6 +327,7 @@ def run(ctx):
             for shape in ("wide-row", "many-keys", "matrix"):
                 try:
                     V, P, W = world(h, names)
+                    set_caching(h, V, False)
                     pre = snapshot(V)
                     h.w.steps = 0
                     h.w.step_budget = max(h.w.step_budget, 4000 * size + 400000)       # an n x n matrix costs n * n steps and more
@@ -361,10 +443,11 @@ def compare(out, V, want, want_members, h, links_only=False):
     return None
 
 
-def replay_dict(keys, rows, lt):
+def replay_dict(keys, rows, lt, warm=False):
     names = sorted(set(keys) | {x for r in rows for x in r} | {"e"})
     return "\n".join(["from edgegraph.structure import *", "from edgegraph.structure import TwoEndedLink", "from edgegraph.builder.adjlist import load_adj_dict", "class SymTwo(TwoEndedLink): pass",
                       f"{', '.join(names)} = {', '.join('Vertex()' for _ in names)}",
+                      *(["from edgegraph.traversal import helpers", "Vertex.NEIGHBOR_CACHING = True", f"[helpers.neighbors(x, d) for x in ({', '.join(names)},) for d in (helpers.DIR_SENS_FORWARD, helpers.DIR_SENS_ANY, helpers.DIR_SENS_BACKWARD)]"] if warm else []),
                       "adj = {" + ", ".join(f"{k}: [{', '.join(r)}]" for k, r in zip(keys, rows)) + "}",
                       f"u = load_adj_dict(adj, {lt})", f"print([x in u.vertices for x in ({', '.join(names)},)], [len(x.links) for x in ({', '.join(names)},)])"])
 
